@@ -68,11 +68,13 @@ func main() {
 	r.Rule = "E2: breadth-first search over the real *Rtree: transitions Insert(o) (o absent, or present once for the two designated duplicate objects) and Delete(o) (every o, present or absent) on a deep clone; states deduplicated by a canonical serialisation of the whole node structure (entry order, levels, leaf flags, boxes, object ids, parent-link flags), height, size and the model multiset. Regime (i) from the empty tree to closure / depth bound; regime (ii) neighbourhoods of height-3 seed trees. Oracle in every distinct non-empty state: NearestNeighbor(p) and NearestNeighbors(k,p) for every query point of the half-integer grid over [-1,4]^2 (quick: a 7x7 sub-grid) and every k = 1..size+1: stored objects, multiplicity respected, non-decreasing distances equal to the k smallest brute-force box distances, remaining slots nil. Non-trivial = states with height >= 2."
 	r.Assumptions = []string{"object alphabet: 16 boxes/points on the {0..3}^2 grid (coincident, nested, degenerate, value-typed); longer histories and other coordinates are outside the bound"}
 	regs := []regime{
-		{"full(2,4)x7", 7, 2, 4, nil, 200, nil},
-		{"full(2,4)x6+dup", 6, 2, 4, nil, 200, []int{0}},
-		{"full(2,5)x7", 7, 2, 5, nil, 200, nil},
-		{"full(3,6)x8", 8, 3, 6, nil, 9, []int{0}},
-		{"seeds(2,4)x13", 13, 2, 4, seedOrders(13), 3, nil},
+		{"full(2,4)x7", 7, 2, 4, nil, 200, nil, false},
+		{"full(2,4)x6+dup", 6, 2, 4, nil, 200, []int{0}, false},
+		{"full(2,5)x7", 7, 2, 5, nil, 200, nil, false},
+		{"full(3,6)x8", 8, 3, 6, nil, 9, []int{0}, false},
+		{"seeds(2,4)x13", 13, 2, 4, seedOrders(13), 3, nil, false},
+		{"spread-seeds(2,4)x13", 13, 2, 4, seedOrders(13), 3, nil, true},
+		{"spread-full(2,4)x6", 6, 2, 4, nil, 200, nil, true},
 	}
 	if tier == "quick" {
 		rtreemc.SetQuickPoints()
@@ -80,14 +82,17 @@ func main() {
 	r.Set("query_points", rtreemc.NumQueryPoints())
 	if tier == "thorough" {
 		regs = []regime{
-			{"full(2,4)x7+dup", 7, 2, 4, nil, 80, []int{0}},
-			{"full(2,4)x7+dup5", 7, 2, 4, nil, 80, []int{5}},
-			{"full(2,5)x8", 8, 2, 5, nil, 80, nil},
-			{"full(3,6)x9", 9, 3, 6, nil, 24, []int{0}},
-			{"full(4,8)x11", 11, 4, 8, nil, 16, []int{0}},
-			{"seeds(2,4)x13", 13, 2, 4, seedOrders(13), 5, nil},
-			{"seeds(2,5)x16", 16, 2, 5, seedOrders(16), 4, nil},
-			{"seeds(3,6)x16", 16, 3, 6, seedOrders(16), 4, nil},
+			{"full(2,4)x7+dup", 7, 2, 4, nil, 80, []int{0}, false},
+			{"full(2,4)x7+dup5", 7, 2, 4, nil, 80, []int{5}, false},
+			{"full(2,5)x8", 8, 2, 5, nil, 80, nil, false},
+			{"full(3,6)x9", 9, 3, 6, nil, 24, []int{0}, false},
+			{"full(4,8)x11", 11, 4, 8, nil, 16, []int{0}, false},
+			{"seeds(2,4)x13", 13, 2, 4, seedOrders(13), 5, nil, false},
+			{"spread-seeds(2,4)x13", 13, 2, 4, seedOrders(13), 5, nil, true},
+			{"spread-full(2,4)x7", 7, 2, 4, nil, 60, []int{0}, true},
+			{"spread-seeds(3,6)x16", 16, 3, 6, seedOrders(16), 3, nil, true},
+			{"seeds(2,5)x16", 16, 2, 5, seedOrders(16), 4, nil, false},
+			{"seeds(3,6)x16", 16, 3, 6, seedOrders(16), 4, nil, false},
 		}
 	}
 	var details []interface{}
@@ -97,6 +102,9 @@ func main() {
 			break
 		}
 		u := rtreemc.NewUniverse(g.nobj, g.min, g.max, g.dups...)
+		if g.spread {
+			u = rtreemc.NewSpreadUniverse(g.nobj, g.min, g.max, g.dups...)
+		}
 		e := &rtreemc.Explorer{U: u, R: r, Seeds: g.seeds, CheckState: rtreemc.CheckC12}
 		st := e.Run(g.depth)
 		r.AddStates(st.States)
@@ -117,6 +125,6 @@ func main() {
 		}
 	}
 	r.Set("regimes", details)
-	
+
 	r.Finish()
 }
